@@ -145,7 +145,7 @@ var baseWorld = WorldOpts{Fkeys: true, SelfRef: false, EmptyKey: true, MaxTabs: 
 func TestC01(t *testing.T) {
 	runProp(t, propSpec{id: "C01", modeF: [2]int{150, 1500},
 		rule: "rapid-generated programs interleaving 2-4 transactions (lookups, forward/backward/partial range scans, scan-and-modify, inserts, updates, deletes, commits, aborts, persists, merge syncs) on 1-2 generated tables with tiny value domains; oracle = serial replay of every committed writer's reads and writes at its commit point on an own logical model. Non-trivial: a writer committed after another commit happened since its start, or a conflict abort occurred; distinct by program.",
-		opts: GenOpts{World: baseWorld, Slots: 4, MaxInstrs: 40, ValRange: 12,
+		opts: GenOpts{World: baseWorld, Slots: 4, MaxInstrs: 40, ValRange: 12, SkewPct: 40,
 			Weights: map[string]int{"begin": 10, "lookup": 12, "scan": 12, "complete": 10}},
 		nt:    func(l map[string]int) bool { return l["commit_overlapping_other_commit"] > 0 || l["conflict_abort"] > 0 },
 		quick: 1500, thorough: 20000})
@@ -193,7 +193,7 @@ func TestC07(t *testing.T) {
 func TestC08(t *testing.T) {
 	runProp(t, propSpec{id: "C08", modeF: [2]int{100, 1000},
 		rule: "same engine on target/source table pairs with block, cascade and cascade-update foreign keys, composite and self-referencing keys, values with zero bytes; oracle = every committed model state has a target row for every non-empty foreign key value; source writes without target and target deletes/updates with non-cascading sources must be refused; cascades change exactly the matching sources (own view and committed state compared with the model). Non-trivial: a change of a target row that has source rows cascaded or was refused; distinct by program.",
-		opts: GenOpts{World: WorldOpts{Fkeys: true, SelfRef: true, EmptyKey: false, MaxTabs: 3}, Slots: 3, MaxInstrs: 40, ValRange: 7,
+		opts: GenOpts{World: WorldOpts{Fkeys: true, SelfRef: true, EmptyKey: false, MaxTabs: 3}, Slots: 3, MaxInstrs: 40, ValRange: 7, SkewPct: 40, Domain: []int{0, 6, 1, 5, 8, 14, 2},
 			Weights: map[string]int{"output": 18, "update": 12, "delete": 12}},
 		nt:    func(l map[string]int) bool { return l["cascade_ops"] > 0 || l["refused_target_change_with_sources"] > 0 },
 		quick: 1500, thorough: 20000})
